@@ -1,10 +1,845 @@
-//! implementation-side drivers of work package "parsers" (see docs/AGENT_GUIDE.md)
+//! implementation-side drivers of work package "parsers" (C06, C07, C15, C16).
+//!
+//! Line protocol (same drivers, same output in extract/drv_parsers.ml):
+//!   authsrv  <hash32hex> <eof> <chunk>...        authenticate_client over a scripted transport
+//!                                                 -> OK <rest hex> | ERR AUTH | ERR EOF | PENDING
+//!   destdec  <eof> <chunk>...                    handler.rs read_socks_addr over a Stream fed with the chunks
+//!                                                 -> OK <addr text hex> <port> <rest hex> | ERR <class> | PENDING
+//!   udpinit  <seedname|-> <eof> <chunk>...       udp_proxy.rs read_initial_request (names are resolved: the
+//!                                                 cache is seeded with seedname -> 10.9.8.7:1)
+//!                                                 -> OK V4:<octets>|V6:<octets> <port> <rest hex> | ERR <class> | PENDING
+//!   destenc  <hosthex> <port> <class>            client.rs create_proxy_stream on a recording transport: the
+//!                                                 destination bytes = PSH payload of the new stream -> OK <hex> | ERR
+//!   dns      <table> <op>...                     resolve_host_with_cache histories (s: seed, r: request, c: clear)
+//!                                                 -> per request `<ip octets hex>.<port>` | ERR
+//!   udpenc   <c|s> <payload hex>                 encode_udp_packet / encode_udp_packet_simple -> OK <hex> | ERR
+//!   udpdec   <c|s> <eof> <chunk>...              loop of read_udp_packet -> D <hex> ... END STOP|PENDING|ERR <class>
+//!   socksreq <eof> <chunk>...                    socks5.rs read_connection_request over loopback TCP
+//!   socks    <open_ok> <eof> <chunk>...          handle_socks5_connection over loopback TCP, the AnyTLS side is
+//!                                                 an in-process server session
+//!                                                 -> W=<bytes to the local client> OPEN=<dest>/<port> TUNNEL=<0|1> FWD=<hex> END=<0|1>
+//!   authtls  <hash32hex> <padlen> <cut> <frag>   real Server::listen + TLS on loopback (oracle only)
+//!                                                 -> DIAL=<0|1> REPLY=<n> CLOSED=<0|1>
+//!   dial     ...                                 end-to-end destination glue, see fn dial (oracle only)
 #![allow(unused_imports, dead_code)]
+use crate::transport::{self, ChanReader, REv};
 use crate::util::{hex, unhex};
+use anytls_rs::client::Client;
+use anytls_rs::padding::PaddingFactory;
+use anytls_rs::protocol::{Command, Frame, FrameCodec};
+use anytls_rs::session::{Session, Stream, StreamReader};
+use anytls_rs::util::AnyTlsError;
+use bytes::{Bytes, BytesMut};
+use std::net::{IpAddr, SocketAddr};
+use std::sync::atomic::{AtomicUsize, Ordering};
+use std::sync::{Arc, Mutex, OnceLock};
+use std::time::Duration;
+use tokio::io::{AsyncReadExt, AsyncWriteExt};
+use tokio::sync::mpsc;
+use tokio_util::codec::{Decoder, Encoder};
+
+const PASSWORD: &str = "verif";
+
+fn paused_rt() -> tokio::runtime::Runtime {
+    tokio::runtime::Builder::new_current_thread()
+        .enable_all()
+        .start_paused(true)
+        .build()
+        .unwrap()
+}
+
+fn real_rt() -> tokio::runtime::Runtime {
+    tokio::runtime::Builder::new_current_thread()
+        .enable_all()
+        .build()
+        .unwrap()
+}
+
+fn chunks_of(args: &[&str]) -> Vec<Vec<u8>> {
+    args.iter().map(|a| unhex(a)).collect()
+}
+
+// ------------------------------------------------------------------------------------------ C06
+fn authsrv(args: &[&str]) -> String {
+    let h = unhex(args[0]);
+    let mut hash = [0u8; 32];
+    hash.copy_from_slice(&h);
+    let eof = args[1] == "1";
+    let chunks = chunks_of(&args[2..]);
+    paused_rt().block_on(async move {
+        let (mut r, tx) = ChanReader::new();
+        let keep = tx.clone();
+        tokio::spawn(async move {
+            for c in chunks {
+                let _ = tx.send(REv::Data(c));
+                tokio::task::yield_now().await;
+            }
+            if eof {
+                let _ = tx.send(REv::Eof);
+            }
+        });
+        let padding = PaddingFactory::default();
+        let res = tokio::time::timeout(
+            Duration::from_secs(5),
+            anytls_rs::authenticate_client(&mut r, &hash, &padding),
+        )
+        .await;
+        let out = match res {
+            Err(_) => "PENDING".to_string(),
+            Ok(Ok(())) => {
+                let mut rest = Vec::new();
+                let mut buf = [0u8; 4096];
+                loop {
+                    match tokio::time::timeout(Duration::from_millis(10), r.read(&mut buf)).await {
+                        Ok(Ok(0)) | Ok(Err(_)) | Err(_) => break,
+                        Ok(Ok(n)) => rest.extend_from_slice(&buf[..n]),
+                    }
+                }
+                format!("OK {}", hex(&rest))
+            }
+            Ok(Err(AnyTlsError::AuthenticationFailed)) => "ERR AUTH".to_string(),
+            Ok(Err(AnyTlsError::Io(e))) if e.kind() == std::io::ErrorKind::UnexpectedEof => {
+                "ERR EOF".to_string()
+            }
+            Ok(Err(_)) => "ERR OTHER".to_string(),
+        };
+        drop(keep);
+        out
+    })
+}
+
+// ------------------------------------------------------------------------------------------ C07
+fn feed_reader(chunks: Vec<Vec<u8>>, eof: bool) -> (StreamReader, Option<mpsc::UnboundedSender<Bytes>>) {
+    let (tx, rx) = mpsc::unbounded_channel::<Bytes>();
+    let reader = StreamReader::new(1, rx);
+    let keep = if eof { None } else { Some(tx.clone()) };
+    tokio::spawn(async move {
+        for c in chunks {
+            let _ = tx.send(Bytes::from(c));
+            tokio::task::yield_now().await;
+        }
+    });
+    (reader, keep)
+}
+
+async fn drain_reader(reader: &mut StreamReader) -> Vec<u8> {
+    let mut rest = Vec::new();
+    let mut buf = [0u8; 4096];
+    loop {
+        match tokio::time::timeout(Duration::from_millis(10), reader.read(&mut buf)).await {
+            Ok(Ok(0)) | Ok(Err(_)) | Err(_) => break,
+            Ok(Ok(n)) => rest.extend_from_slice(&buf[..n]),
+        }
+    }
+    rest
+}
+
+fn class_of(msg: &str) -> &'static str {
+    if msg.contains("Unsupported address type") || msg.contains("Unknown address type") {
+        "ATYP"
+    } else if msg.contains("Invalid domain length") {
+        "LEN"
+    } else if msg.contains("Invalid domain name") {
+        "UTF8"
+    } else if msg.contains("Unsupported UDP over TCP format") {
+        "FMT"
+    } else if msg.contains("too large") {
+        "BIG"
+    } else if msg.contains("SOCKS version") {
+        "VER"
+    } else if msg.contains("No address found") || msg.contains("DNS resolution") {
+        "DNS"
+    } else if msg.contains("Failed to read") || msg.contains("eof") || msg.contains("Eof") || msg.contains("EOF") {
+        "EOF"
+    } else {
+        "OTHER"
+    }
+}
+
+fn destdec(args: &[&str]) -> String {
+    let eof = args[0] == "1";
+    let chunks = chunks_of(&args[1..]);
+    paused_rt().block_on(async move {
+        let (reader, keep) = feed_reader(chunks, eof);
+        let (wtx, _wrx) = mpsc::unbounded_channel::<(u32, Bytes)>();
+        let (stream, _synack) = Stream::new(1, reader, wtx);
+        let stream = Arc::new(stream);
+        let res = tokio::time::timeout(
+            Duration::from_secs(5),
+            anytls_rs::server::handler::handler_verif_hooks::read_socks_addr(stream.clone()),
+        )
+        .await;
+        match res {
+            Err(_) => "PENDING".to_string(),
+            Ok(Ok((addr, port))) => {
+                drop(keep);
+                let r = stream.reader().clone();
+                let mut g = r.lock().await;
+                let rest = drain_reader(&mut g).await;
+                format!("OK {} {} {}", hex(addr.as_bytes()), port, hex(&rest))
+            }
+            Ok(Err(e)) => format!("ERR {}", class_of(&e)),
+        }
+    })
+}
+
+fn udpinit(args: &[&str]) -> String {
+    let seed = args[0].to_string();
+    let eof = args[1] == "1";
+    let chunks = chunks_of(&args[2..]);
+    real_rt().block_on(async move {
+        anytls_rs::util::dns_cache::dns_verif_hooks::dns_cache_clear().await;
+        if seed != "-" {
+            if let Ok(name) = String::from_utf8(unhex(&seed)) {
+                anytls_rs::util::dns_cache::dns_verif_hooks::dns_cache_seed(
+                    &name,
+                    vec!["10.9.8.7:1".parse().unwrap()],
+                    Duration::from_millis(0),
+                )
+                .await;
+            }
+        }
+        let (mut reader, keep) = feed_reader(chunks, eof);
+        let res = tokio::time::timeout(
+            Duration::from_millis(300),
+            anytls_rs::server::udp_proxy::udp_proxy_verif_hooks::read_initial_request(&mut reader),
+        )
+        .await;
+        let out = match res {
+            Err(_) => "PENDING".to_string(),
+            Ok(Ok(sa)) => {
+                drop(keep);
+                let rest = drain_reader(&mut reader).await;
+                let a = match sa.ip() {
+                    IpAddr::V4(i) => format!("V4:{}", hex(&i.octets())),
+                    IpAddr::V6(i) => format!("V6:{}", hex(&i.octets())),
+                };
+                format!("OK {} {} {}", a, sa.port(), hex(&rest))
+            }
+            Ok(Err(e)) => format!("ERR {}", class_of(&e)),
+        };
+        anytls_rs::util::dns_cache::dns_verif_hooks::dns_cache_clear().await;
+        out
+    })
+}
+
+type BoxR = Box<dyn tokio::io::AsyncRead + Send + Unpin>;
+type BoxW = Box<dyn tokio::io::AsyncWrite + Send + Unpin>;
+
+fn test_client() -> Arc<Client> {
+    let tls = anytls_rs::util::tls::create_client_config().unwrap();
+    let connector = Arc::new(tokio_rustls::TlsConnector::from(tls));
+    let name =
+        tokio_rustls::rustls::pki_types::ServerName::try_from("localhost".to_string()).unwrap();
+    Arc::new(Client::new(
+        PASSWORD,
+        "127.0.0.1:1".to_string(),
+        name,
+        connector,
+        PaddingFactory::default(),
+    ))
+}
+
+/// bytes written by a client session -> (preamble length, frames)
+fn parse_client_wire(wire: &[u8]) -> Vec<Frame> {
+    let mut out = Vec::new();
+    if wire.len() < 34 {
+        return out;
+    }
+    let pad = u16::from_be_bytes([wire[32], wire[33]]) as usize;
+    if wire.len() < 34 + pad {
+        return out;
+    }
+    let mut buf = BytesMut::from(&wire[34 + pad..]);
+    let mut codec = FrameCodec;
+    while let Ok(Some(f)) = codec.decode(&mut buf) {
+        out.push(f);
+    }
+    out
+}
+
+fn destenc(args: &[&str]) -> String {
+    let host = String::from_utf8(unhex(args[0])).expect("host must be UTF-8");
+    let port: u16 = args[1].parse().unwrap();
+    paused_rt().block_on(async move {
+        let client = test_client();
+        let (w, h) = transport::RecWriter::new(None);
+        let (r, keep) = ChanReader::new();
+        let slot: Arc<Mutex<Option<(BoxR, BoxW)>>> =
+            Arc::new(Mutex::new(Some((Box::new(r) as BoxR, Box::new(w) as BoxW))));
+        let connector: anytls_rs::client::VerifConnector = Arc::new(move || {
+            slot.lock().unwrap().take().unwrap_or_else(|| {
+                let (r2, _k) = ChanReader::new();
+                let (w2, _h2) = transport::RecWriter::new(None);
+                (Box::new(r2) as BoxR, Box::new(w2) as BoxW)
+            })
+        });
+        client.verif_set_connector(Some(connector));
+        let _ = client.create_proxy_stream((host, port)).await;
+        let frames = parse_client_wire(&h.bytes());
+        let sid = frames
+            .iter()
+            .find(|f| f.cmd == Command::Syn)
+            .map(|f| f.stream_id);
+        let mut data = Vec::new();
+        if let Some(sid) = sid {
+            for f in &frames {
+                if f.cmd == Command::Push && f.stream_id == sid {
+                    data.extend_from_slice(&f.data);
+                }
+            }
+        }
+        drop(keep);
+        client.stop_session_pool_cleanup().await;
+        if data.is_empty() {
+            "ERR".to_string()
+        } else {
+            format!("OK {}", hex(&data))
+        }
+    })
+}
+
+fn ip_of(octets: &[u8]) -> IpAddr {
+    if octets.len() == 4 {
+        let mut a = [0u8; 4];
+        a.copy_from_slice(octets);
+        IpAddr::from(a)
+    } else {
+        let mut a = [0u8; 16];
+        a.copy_from_slice(octets);
+        IpAddr::from(a)
+    }
+}
+
+fn ip_hex(ip: IpAddr) -> String {
+    match ip {
+        IpAddr::V4(i) => hex(&i.octets()),
+        IpAddr::V6(i) => hex(&i.octets()),
+    }
+}
+
+fn dns(args: &[&str]) -> String {
+    let ops: Vec<String> = args[1..].iter().map(|s| s.to_string()).collect();
+    real_rt().block_on(async move {
+        use anytls_rs::util::dns_cache::dns_verif_hooks::{dns_cache_clear, dns_cache_seed};
+        dns_cache_clear().await;
+        let mut out = String::new();
+        for op in ops {
+            let t: Vec<&str> = op.split(':').collect();
+            match t[0] {
+                "c" => dns_cache_clear().await,
+                "s" => {
+                    let name = String::from_utf8(unhex(t[1])).unwrap();
+                    let addrs: Vec<SocketAddr> = t[2]
+                        .split(',')
+                        .filter(|a| !a.is_empty())
+                        .map(|a| {
+                            let (ip, p) = a.split_once('.').unwrap();
+                            SocketAddr::new(ip_of(&unhex(ip)), p.parse().unwrap())
+                        })
+                        .collect();
+                    let age: u64 = t[3].parse().unwrap();
+                    dns_cache_seed(&name, addrs, Duration::from_millis(age)).await;
+                }
+                "r" => {
+                    let name = String::from_utf8(unhex(t[1])).unwrap();
+                    let port: u16 = t[2].parse().unwrap();
+                    match anytls_rs::util::resolve_host_with_cache(&name, port).await {
+                        Ok(sa) => out.push_str(&format!("{}.{} ", ip_hex(sa.ip()), sa.port())),
+                        Err(_) => out.push_str("ERR "),
+                    }
+                }
+                _ => panic!("bad dns op"),
+            }
+        }
+        dns_cache_clear().await;
+        out
+    })
+}
+
+// ------------------------------------------------------------------------------------------ C15
+fn udpenc(args: &[&str]) -> String {
+    let d = unhex(args[1]);
+    let r = if args[0] == "c" {
+        anytls_rs::client::udp_client::udp_client_verif_hooks::encode_udp_packet(&d)
+    } else {
+        anytls_rs::server::udp_proxy::udp_proxy_verif_hooks::encode_udp_packet_simple(&d)
+    };
+    match r {
+        Ok(b) => format!("OK {}", hex(&b)),
+        Err(_) => "ERR".to_string(),
+    }
+}
+
+fn udpdec(args: &[&str]) -> String {
+    let client_side = args[0] == "c";
+    let eof = args[1] == "1";
+    let chunks = chunks_of(&args[2..]);
+    paused_rt().block_on(async move {
+        let (mut reader, keep) = feed_reader(chunks, eof);
+        let mut out = String::new();
+        loop {
+            let res = if client_side {
+                tokio::time::timeout(
+                    Duration::from_secs(1),
+                    anytls_rs::client::udp_client::udp_client_verif_hooks::read_udp_packet(&mut reader),
+                )
+                .await
+            } else {
+                tokio::time::timeout(
+                    Duration::from_secs(1),
+                    anytls_rs::server::udp_proxy::udp_proxy_verif_hooks::read_udp_packet(&mut reader),
+                )
+                .await
+            };
+            match res {
+                Err(_) => {
+                    out.push_str("END PENDING");
+                    break;
+                }
+                Ok(Ok(d)) => {
+                    if d.is_empty() {
+                        out.push_str("END STOP");
+                        break;
+                    }
+                    out.push_str(&format!("D {} ", hex(&d)));
+                }
+                Ok(Err(e)) => {
+                    out.push_str(&format!("END ERR {}", class_of(&e)));
+                    break;
+                }
+            }
+        }
+        drop(keep);
+        out
+    })
+}
+
+// ------------------------------------------------------------------------------------------ C16
+async fn tcp_pair() -> (tokio::net::TcpStream, tokio::net::TcpStream) {
+    let l = tokio::net::TcpListener::bind("127.0.0.1:0").await.unwrap();
+    let addr = l.local_addr().unwrap();
+    let c = tokio::net::TcpStream::connect(addr);
+    let (c, s) = tokio::join!(c, l.accept());
+    let c = c.unwrap();
+    let (s, _) = s.unwrap();
+    let _ = c.set_nodelay(true);
+    let _ = s.set_nodelay(true);
+    (c, s)
+}
+
+/// writes the chunks as separate segments (best effort), then optionally half-closes
+async fn write_chunks<W: tokio::io::AsyncWrite + Unpin>(w: &mut W, chunks: Vec<Vec<u8>>, eof: bool) {
+    for c in chunks {
+        if c.is_empty() {
+            continue;
+        }
+        if w.write_all(&c).await.is_err() {
+            return;
+        }
+        let _ = w.flush().await;
+        tokio::time::sleep(Duration::from_millis(2)).await;
+    }
+    if eof {
+        let _ = w.shutdown().await;
+    }
+}
+
+fn socksreq(args: &[&str]) -> String {
+    let eof = args[0] == "1";
+    let chunks = chunks_of(&args[1..]);
+    real_rt().block_on(async move {
+        let (c, mut s) = tcp_pair().await;
+        let (cr, mut cw) = c.into_split();
+        let writer = tokio::spawn(async move {
+            write_chunks(&mut cw, chunks, eof).await;
+            cw
+        });
+        let res = tokio::time::timeout(
+            Duration::from_millis(400),
+            anytls_rs::client::socks5::socks5_verif_hooks::read_connection_request(&mut s),
+        )
+        .await;
+        let out = match res {
+            Err(_) => "PENDING".to_string(),
+            Ok(Ok(((addr, port), cmd))) => {
+                let _cw = writer.await;
+                let mut rest = Vec::new();
+                let mut buf = [0u8; 4096];
+                loop {
+                    match tokio::time::timeout(Duration::from_millis(40), s.read(&mut buf)).await {
+                        Ok(Ok(0)) | Ok(Err(_)) | Err(_) => break,
+                        Ok(Ok(n)) => rest.extend_from_slice(&buf[..n]),
+                    }
+                }
+                format!("OK {} {} {} {}", cmd, hex(addr.as_bytes()), port, hex(&rest))
+            }
+            Ok(Err(e)) => format!("ERR {}", class_of(&e)),
+        };
+        drop(cr);
+        out
+    })
+}
+
+#[derive(Default)]
+struct SocksShared {
+    open: Option<(String, u16)>,
+    tunnel: bool,
+    fwd: Vec<u8>,
+    changes: usize,
+}
+
+async fn serve_socks_session(half: tokio::io::DuplexStream, sh: Arc<Mutex<SocksShared>>, open_ok: bool) {
+    let (mut r, w) = tokio::io::split(half);
+    let padding = PaddingFactory::default();
+    let ph = anytls_rs::hash_password(PASSWORD);
+    if anytls_rs::authenticate_client(&mut r, &ph, &padding).await.is_err() {
+        return;
+    }
+    let (tx, mut rx) = mpsc::unbounded_channel::<Arc<Stream>>();
+    let mut session = Session::new_server(r, w, padding);
+    session.set_stream_callback(tx);
+    let session = Arc::new(session);
+    let s1 = session.clone();
+    tokio::spawn(async move {
+        let _ = s1.recv_loop().await;
+    });
+    let s2 = session.clone();
+    tokio::spawn(async move {
+        let _ = s2.process_stream_data().await;
+    });
+    while let Some(stream) = rx.recv().await {
+        let sh = sh.clone();
+        let session = session.clone();
+        tokio::spawn(async move {
+            let id = stream.id();
+            let dest =
+                anytls_rs::server::handler::handler_verif_hooks::read_socks_addr(stream.clone()).await;
+            let Ok((host, port)) = dest else {
+                let f = Frame::with_data(Command::SynAck, id, Bytes::from_static(b"bad destination"));
+                let _ = session.write_control_frame(f).await;
+                return;
+            };
+            {
+                let mut g = sh.lock().unwrap();
+                g.open = Some((host, port));
+                g.changes += 1;
+            }
+            if !open_ok {
+                let f = Frame::with_data(Command::SynAck, id, Bytes::from_static(b"connect failed"));
+                let _ = session.write_control_frame(f).await;
+                return;
+            }
+            {
+                let mut g = sh.lock().unwrap();
+                g.tunnel = true;
+                g.changes += 1;
+            }
+            let _ = session.write_control_frame(Frame::control(Command::SynAck, id)).await;
+            let reader = stream.reader().clone();
+            let mut buf = vec![0u8; 16384];
+            loop {
+                let n = {
+                    let mut g = reader.lock().await;
+                    match g.read(&mut buf).await {
+                        Ok(0) | Err(_) => break,
+                        Ok(n) => n,
+                    }
+                };
+                let mut g = sh.lock().unwrap();
+                g.fwd.extend_from_slice(&buf[..n]);
+                g.changes += 1;
+            }
+        });
+    }
+}
+
+fn duplex_connector(sh: Arc<Mutex<SocksShared>>, open_ok: bool) -> anytls_rs::client::VerifConnector {
+    Arc::new(move || {
+        let (a, b) = tokio::io::duplex(1 << 20);
+        tokio::spawn(serve_socks_session(b, sh.clone(), open_ok));
+        let (r, w) = tokio::io::split(a);
+        (Box::new(r) as BoxR, Box::new(w) as BoxW)
+    })
+}
+
+fn socks(args: &[&str]) -> String {
+    let open_ok = args[0] == "1";
+    let eof = args[1] == "1";
+    let chunks = chunks_of(&args[2..]);
+    real_rt().block_on(async move {
+        let sh = Arc::new(Mutex::new(SocksShared::default()));
+        let client = test_client();
+        client.verif_set_connector(Some(duplex_connector(sh.clone(), open_ok)));
+        let (c, s) = tcp_pair().await;
+        let client2 = client.clone();
+        let handler = tokio::spawn(async move {
+            let _ = anytls_rs::client::socks5::socks5_verif_hooks::handle_socks5_connection(s, client2).await;
+        });
+        let (mut cr, mut cw) = c.into_split();
+        let writer = tokio::spawn(async move {
+            write_chunks(&mut cw, chunks, eof).await;
+            cw
+        });
+        let got: Arc<Mutex<(Vec<u8>, bool)>> = Arc::new(Mutex::new((Vec::new(), false)));
+        let got2 = got.clone();
+        let reader = tokio::spawn(async move {
+            let mut buf = [0u8; 4096];
+            loop {
+                match cr.read(&mut buf).await {
+                    Ok(0) | Err(_) => {
+                        got2.lock().unwrap().1 = true;
+                        break;
+                    }
+                    Ok(n) => got2.lock().unwrap().0.extend_from_slice(&buf[..n]),
+                }
+            }
+        });
+        let _cw = writer.await;
+        // settle: until the local client saw EOF, or nothing changed for `quiet`
+        let quiet = Duration::from_millis(300);
+        let t0 = std::time::Instant::now();
+        let mut last = (0usize, 0usize);
+        let mut since = std::time::Instant::now();
+        loop {
+            let (n, ended) = {
+                let g = got.lock().unwrap();
+                (g.0.len(), g.1)
+            };
+            if ended {
+                break;
+            }
+            let cur = (n, sh.lock().unwrap().changes);
+            if cur != last {
+                last = cur;
+                since = std::time::Instant::now();
+            }
+            if since.elapsed() > quiet || t0.elapsed() > Duration::from_secs(5) {
+                break;
+            }
+            tokio::time::sleep(Duration::from_millis(5)).await;
+        }
+        let (w, ended) = {
+            let g = got.lock().unwrap();
+            (g.0.clone(), g.1)
+        };
+        let g = sh.lock().unwrap();
+        let open = match &g.open {
+            Some((h, p)) => format!("{}/{}", hex(h.as_bytes()), p),
+            None => "-".to_string(),
+        };
+        let out = format!(
+            "W={} OPEN={} TUNNEL={} FWD={} END={}",
+            hex(&w),
+            open,
+            if g.tunnel { 1 } else { 0 },
+            hex(&g.fwd),
+            if ended { 1 } else { 0 }
+        );
+        drop(g);
+        handler.abort();
+        reader.abort();
+        client.stop_session_pool_cleanup().await;
+        out
+    })
+}
+
+// ------------------------------------------------------------------------------------------ C06 end to end
+struct TlsEnv {
+    rt: tokio::runtime::Runtime,
+    server_addr: SocketAddr,
+    target_addr: SocketAddr,
+    dials: Arc<AtomicUsize>,
+}
+
+static TLS_ENV: OnceLock<TlsEnv> = OnceLock::new();
+
+fn free_port() -> u16 {
+    let l = std::net::TcpListener::bind("127.0.0.1:0").unwrap();
+    l.local_addr().unwrap().port()
+}
+
+fn tls_env() -> &'static TlsEnv {
+    TLS_ENV.get_or_init(|| {
+        let rt = tokio::runtime::Builder::new_multi_thread()
+            .worker_threads(2)
+            .enable_all()
+            .build()
+            .unwrap();
+        let dials = Arc::new(AtomicUsize::new(0));
+        let d2 = dials.clone();
+        let (server_addr, target_addr) = rt.block_on(async move {
+            let target = tokio::net::TcpListener::bind("127.0.0.1:0").await.unwrap();
+            let target_addr = target.local_addr().unwrap();
+            tokio::spawn(async move {
+                let mut keep = Vec::new();
+                loop {
+                    if let Ok((s, _)) = target.accept().await {
+                        d2.fetch_add(1, Ordering::SeqCst);
+                        keep.push(s);
+                        if keep.len() > 64 {
+                            keep.drain(..32);
+                        }
+                    }
+                }
+            });
+            let cfg = anytls_rs::util::tls::create_server_config().unwrap();
+            let acceptor = Arc::new(tokio_rustls::TlsAcceptor::from(cfg));
+            let server = Arc::new(anytls_rs::server::Server::new(
+                PASSWORD,
+                acceptor,
+                PaddingFactory::default(),
+                None,
+            ));
+            let port = free_port();
+            let addr: SocketAddr = format!("127.0.0.1:{}", port).parse().unwrap();
+            let srv = server.clone();
+            let a = addr.to_string();
+            tokio::spawn(async move {
+                let _ = srv.listen(&a).await;
+            });
+            // wait until it accepts
+            for _ in 0..200 {
+                if tokio::net::TcpStream::connect(addr).await.is_ok() {
+                    break;
+                }
+                tokio::time::sleep(Duration::from_millis(10)).await;
+            }
+            (addr, target_addr)
+        });
+        TlsEnv {
+            rt,
+            server_addr,
+            target_addr,
+            dials,
+        }
+    })
+}
+
+fn enc_frame(f: Frame, out: &mut BytesMut) {
+    FrameCodec.encode(f, out).unwrap();
+}
+
+/// authtls <hash32hex> <padlen> <cut> <frag> [h]
+///   the client sends  hash ++ be16(padlen) ++ zeros(padlen) ++ Settings ++ SYN(1) ++ PSH(1, destination = target)
+///   cut  = number of bytes of that byte string actually sent before the client half-closes ("-" = all, no close)
+///   frag = comma separated write sizes (cycled), "-" = one write
+fn authtls(args: &[&str]) -> String {
+    let hash = unhex(args[0]);
+    let padlen: usize = args[1].parse().unwrap();
+    let cut: Option<usize> = if args[2] == "-" { None } else { Some(args[2].parse().unwrap()) };
+    let frag: Vec<usize> = if args[3] == "-" {
+        vec![]
+    } else {
+        args[3].split(',').map(|x| x.parse().unwrap()).collect()
+    };
+    // layout "h": the frames follow the 32 bytes directly (what a server that skipped the check would parse)
+    let bare = args.len() > 4 && args[4] == "h";
+    let env = tls_env();
+    env.rt.block_on(async move {
+        let mut wire = BytesMut::new();
+        wire.extend_from_slice(&hash);
+        if !bare {
+            wire.extend_from_slice(&(padlen as u16).to_be_bytes());
+            wire.extend_from_slice(&vec![0u8; padlen]);
+        }
+        enc_frame(
+            Frame::with_data(Command::Settings, 0, Bytes::from_static(b"v=2\nclient=verif")),
+            &mut wire,
+        );
+        enc_frame(Frame::control(Command::Syn, 1), &mut wire);
+        let mut dest = vec![1u8];
+        if let IpAddr::V4(i) = env.target_addr.ip() {
+            dest.extend_from_slice(&i.octets());
+        }
+        dest.extend_from_slice(&env.target_addr.port().to_be_bytes());
+        enc_frame(Frame::with_data(Command::Push, 1, Bytes::from(dest)), &mut wire);
+        let mut wire = wire.to_vec();
+        if let Some(c) = cut {
+            wire.truncate(c.min(wire.len()));
+        }
+        let before = env.dials.load(Ordering::SeqCst);
+        let tls = anytls_rs::util::tls::create_client_config().unwrap();
+        let connector = tokio_rustls::TlsConnector::from(tls);
+        let name = tokio_rustls::rustls::pki_types::ServerName::try_from("localhost".to_string()).unwrap();
+        let tcp = match tokio::net::TcpStream::connect(env.server_addr).await {
+            Ok(t) => t,
+            Err(_) => return "CONNECT-FAILED".to_string(),
+        };
+        let _ = tcp.set_nodelay(true);
+        let mut s = match connector.connect(name, tcp).await {
+            Ok(s) => s,
+            Err(_) => return "TLS-FAILED".to_string(),
+        };
+        let mut pos = 0usize;
+        let mut k = 0usize;
+        while pos < wire.len() {
+            let n = if frag.is_empty() { wire.len() } else { frag[k % frag.len()].max(1) };
+            let end = (pos + n).min(wire.len());
+            if s.write_all(&wire[pos..end]).await.is_err() {
+                break;
+            }
+            let _ = s.flush().await;
+            if !frag.is_empty() {
+                tokio::time::sleep(Duration::from_millis(1)).await;
+            }
+            pos = end;
+            k += 1;
+        }
+        if cut.is_some() {
+            let _ = s.shutdown().await;
+        }
+        // observe: bytes coming back, close, and dials at the target
+        let mut reply = 0usize;
+        let mut closed = false;
+        let mut buf = [0u8; 4096];
+        let t0 = std::time::Instant::now();
+        let mut closed_at: Option<std::time::Instant> = None;
+        loop {
+            if env.dials.load(Ordering::SeqCst) > before {
+                break;
+            }
+            if let Some(c) = closed_at {
+                if c.elapsed() > Duration::from_millis(150) {
+                    break;
+                }
+                tokio::time::sleep(Duration::from_millis(10)).await;
+                continue;
+            }
+            if t0.elapsed() > Duration::from_millis(1500) {
+                break;
+            }
+            match tokio::time::timeout(Duration::from_millis(20), s.read(&mut buf)).await {
+                Ok(Ok(0)) | Ok(Err(_)) => {
+                    closed = true;
+                    closed_at = Some(std::time::Instant::now());
+                }
+                Ok(Ok(n)) => reply += n,
+                Err(_) => {}
+            }
+        }
+        let dial = env.dials.load(Ordering::SeqCst) > before;
+        format!(
+            "DIAL={} REPLY={} CLOSED={}",
+            if dial { 1 } else { 0 },
+            reply,
+            if closed { 1 } else { 0 }
+        )
+    })
+}
 
 pub fn dispatch(drv: &str, args: &[&str]) -> Option<String> {
-    let _ = args;
     match drv {
+        "authsrv" => Some(authsrv(args)),
+        "destdec" => Some(destdec(args)),
+        "udpinit" => Some(udpinit(args)),
+        "destenc" => Some(destenc(args)),
+        "dns" => Some(dns(args)),
+        "udpenc" => Some(udpenc(args)),
+        "udpdec" => Some(udpdec(args)),
+        "socksreq" => Some(socksreq(args)),
+        "socks" => Some(socks(args)),
+        "authtls" => Some(authtls(args)),
         _ => None,
     }
 }
